@@ -423,6 +423,21 @@ def build(hs, decorate=True):
     b.isub = []
     b.hook_raw, b.hook_snap = [], []
     if decorate:
+        # HISTORY: earlier classes built from the very same body objects (function objects, classmethod / property /
+        # cached_property wrappers, the user __getattr__, the attr.ib()s) -- a shared helper, a class factory called
+        # twice, a copied body.  Whatever attrs memoises per function / per name / per body object and hands to a
+        # later class shows up on the class under test.  The model is a function of the class under test alone.
+        for kind in hs.get("history", []):
+            try:
+                ns2 = {k: v for k, v in old.__dict__.items()
+                       if k not in ("__dict__", "__weakref__", "__abstractmethods__", "_abc_impl")}
+                earlier = _meta(hs)(name, bases, ns2)
+                _decorate(hs, earlier, slots=(kind == "slots"))
+            except BaseException:  # noqa: BLE001 -- context only; the class under test is what is judged
+                pass
+            finally:
+                del ISUB[:]
+                del LOG[:]
         def at_hook_time(cls):
             b.hook_raw.append(_raw_calls(cls, b))
             snap = {"slots": cls.__dict__.get("__slots__", MISSING), "keys": set(cls.__dict__), "cls": cls}
@@ -677,7 +692,7 @@ def failed_obs(hs, what):
     return {"keys": [], "slots": [], "reused": [], "slotCount": [], "hasDict": False, "weakrefable": False,
             "setUnknown": "other", "getUnknown": "other", "cells": [], "calls": [], "cachedReturns": [],
             "cachedComputes": [], "initSubclass": [], "ownSetattrFlag": None, "setattrReset": False,
-            "hookCalls": [], "hookView": [], "assignAgree": False, "runtimeDiff": [what]}
+            "hookCalls": [], "hookView": [], "assignAgree": False, "lookupDiff": [], "runtimeDiff": [what]}
 
 
 def attrs_caused(e):
@@ -739,7 +754,11 @@ def observe(hs):
         inst = None
         obs["runtimeDiff"] = ["instantiate:" + common.exc_kind(e)]
     del LOG[:]
-    obs["hasDict"] = hasattr(inst, "__dict__") if inst is not None else False
+    try:
+        obs["hasDict"] = hasattr(inst, "__dict__") if inst is not None else False
+    except BaseException as e:  # noqa: BLE001 -- hasattr must not raise; recorded below through lookupDiff too
+        obs["hasDict"] = False
+        obs.setdefault("runtimeDiff", []).append("hasattr(__dict__):" + common.exc_kind(e))
     del LOG[:]
     try:
         weakref.ref(inst)
@@ -753,6 +772,29 @@ def observe(hs):
         except BaseException:  # noqa: BLE001
             pass
     obs["getUnknown"] = _probe(lambda: getattr(inst, "zz_unknown_get"))
+    # what follows from "a failed lookup raises AttributeError": hasattr / getattr-with-default / copy / deepcopy
+    ld = []
+    if inst is not None:
+        try:
+            if hasattr(inst, "zz_nope") is not False:
+                ld.append("hasattr")
+        except BaseException as e:  # noqa: BLE001
+            ld.append("hasattr:" + common.exc_kind(e))
+        try:
+            if getattr(inst, "zz_nope", MISSING) is not MISSING:
+                ld.append("getattr-default")
+        except BaseException as e:  # noqa: BLE001
+            ld.append("getattr-default:" + common.exc_kind(e))
+        import copy as _copy
+        for nm, fn_ in (("copy", _copy.copy), ("deepcopy", _copy.deepcopy)):
+            try:
+                c2 = fn_(inst)
+                if type(c2) is not new:
+                    ld.append(nm + ":type")
+            except BaseException as e:  # noqa: BLE001
+                ld.append(nm + ":" + common.exc_kind(e))
+    obs["lookupDiff"] = ld
+    del LOG[:]
     obs["cells"] = [[cid, _cellval(b.cells[cid], b)] for cid, _ in hs["cells"]]
     # calls (now), and what the same functions saw when the inherited hook invoked them (then)
     obs["calls"] = [[lab, _classify(ev, new, old)] for lab, ev in _raw_calls(new, b)]
